@@ -135,7 +135,7 @@ func runC12(c *Ctx) {
 		c.undecided("R2", "instance-floor", "", fmt.Sprintf("%d funnel calls found, 44 confirmed by hand", n))
 	}
 	// synthetic tokens keep the operator's position
-	if rw := p.LangFunc("(*Parser).rewriteCompundAssingment"); rw != nil {
+	if rw := findCompoundRewriter(p, extractPratt(p)); rw != nil {
 		cnt := 0
 		allInstrs(rw, func(in ssa.Instruction) {
 			st, ok := in.(*ssa.Store)
@@ -150,6 +150,8 @@ func runC12(c *Ctx) {
 		if cnt < 2 {
 			c.undecided("R2", "synthetic-token-position", p.Pos(rw.Pos()), fmt.Sprintf("%d synthetic token positions found, 2 expected", cnt))
 		}
+	} else {
+		c.undecided("R2", "synthetic-token-position", "", "the compound-assignment rewriter was not found")
 	}
 
 	// R3 no-lost-lexical-error
